@@ -19,7 +19,7 @@ ASSUMPTIONS = ["model arithmetic on declarations (vf/meaning.py core_from_sx + E
 TIERS = {"quick": {"shards": 8, "budget_s": 50}, "thorough": {"shards": 16, "budget_s": 420}}
 REQUIRE = {"references-checked": 2000, "consumer:resolve_qubit": 2000, "consumer:fill_in_map": 2000,
            "consumer:used_qubits": 2000, "consumer:emulator": 1000, "consumer:pygsti": 500, "style:let": 200,
-           "style:default": 200, "depth>=2": 500, "position:macro-arg": 200, "position:macro-body": 200}
+           "style:default": 200, "depth>=2": 500, "position:macro-arg": 200, "position:macro-body": 200, "position:macro-index": 200}
 
 _PYGSTI = [None]
 
@@ -96,7 +96,7 @@ def build_program(n, chain, style, rng, offset=0):
     for i in range(src_len):
         idx = val(i)
         ref = ("array_item", final, idx)
-        pos = ("top", "block", "loop", "macro-body", "macro-arg", "single")[(i + offset) % 6]
+        pos = ("top", "block", "loop", "macro-body", "macro-arg", "single", "macro-index")[(i + offset) % 7]
         refs.append((pos, i, ref))
     macros = []
     for pos, i, ref in refs:
@@ -115,6 +115,11 @@ def build_program(n, chain, style, rng, offset=0):
             mname = "ma%d" % i
             macros.append(("macro", mname, "p", ("sequential_block", ("gate", "X", "p"))))
             sec = [("gate", mname, ref)]
+        elif pos == "macro-index":
+            # the alias is indexed by a macro parameter; the call supplies the index
+            mname = "mi%d" % i
+            macros.append(("macro", mname, "k", ("sequential_block", ("gate", "X", ("array_item", final, "k")))))
+            sec = [("gate", mname, ref[2])]
         else:
             sname = "s%d" % i
             singles.append(("map", sname, final, ref[2]))
@@ -213,7 +218,29 @@ def judge(case):
             break
     # (2) fill_in_map
     o = lib.outcome(lambda: lib.fill_in_map(lib.fill_in_let(c)))
-    if o[0] != "ok":
+    has_param_index = any(s[0] == "macro" and s[1].startswith("mi") for s in prog[1:])
+    if o[0] == "jaqal" and has_param_index:
+        info["fill_na"] = 1  # fill_in_map documents that it cannot handle parameter-dependent references
+        # judge the pass on the same program without the parameter-indexed sections
+        p2 = strip_param_index(prog)
+        o2 = lib.outcome(lib.parse, sx.to_text(p2), X.native())
+        if o2[0] == "ok":
+            c2 = o2[1]
+            o = lib.outcome(lambda: lib.fill_in_map(lib.fill_in_let(c2)))
+            if o[0] != "ok":
+                fails.append(("fill_in_map-raised:" + o[1], {"error": o[2]}))
+            else:
+                try:
+                    km = M.core_from_ir(o[1])
+                    if non_fundamental_refs(km):
+                        fails.append(("fill_in_map-left-alias", {"refs": non_fundamental_refs(km)[:3]}))
+                    if not M.tree_equal(M.full_meaning(km, env={}), M.full_meaning(M.core_from_ir(c2), env={})):
+                        fails.append(("fill_in_map-changed-meaning", {}))
+                    else:
+                        info["fill"] += len([s for s in p2[1:] if s == ("gate", "prepare_all")])
+                except (M.OracleError, M.MeaningError) as ex:
+                    fails.append(("fill_in_map-malformed-result", {"error": str(ex)[:200]}))
+    elif o[0] != "ok":
         fails.append(("fill_in_map-raised:" + o[1], {"error": o[2]}))
     else:
         cm = o[1]
@@ -269,6 +296,19 @@ def judge(case):
     return "ok", fails, info
 
 
+def strip_param_index(prog):
+    hdr = [s for s in prog[1:] if s[0] in sx.HEADER]
+    macros = [s for s in prog[1:] if s[0] == "macro" and not s[1].startswith("mi")]
+    body = [s for s in prog[1:] if s[0] not in sx.HEADER and s[0] != "macro"]
+    out = []
+    for i in range(0, len(body), 3):
+        sec = body[i:i + 3]
+        if len(sec) == 3 and sec[1][0] == "gate" and sec[1][1].startswith("mi"):
+            continue
+        out.extend(sec)
+    return ("circuit",) + tuple(hdr) + tuple(macros) + tuple(out)
+
+
 def non_fundamental_refs(core):
     bad = []
 
@@ -306,6 +346,7 @@ def process(ctx, case, feats):
     rec.count("references-checked", info["refs"])
     rec.count("consumer:resolve_qubit", info["resolve"])
     rec.count("consumer:fill_in_map", info["fill"])
+    rec.count("consumer:fill_in_map-not-applicable", info.get("fill_na", 0))
     rec.count("consumer:used_qubits", info["used"])
     rec.count("consumer:emulator", info["emu"])
     rec.count("consumer:pygsti", info["gsti"])
